@@ -9,9 +9,7 @@ import (
 )
 
 // registerExceptions: symbol creation sites that do not register an identifier, with reason.
-var registerExceptions = map[string]string{
-	"compiler.commandExtractor.extract": "mid-rule nonterminals nt$N get the identifier Nt_N; they are internal to the generated tables and are not emitted as Go identifiers",
-}
+var registerExceptions = map[string]string{}
 
 // REGISTER: every creation of a grammar symbol with a target-language identifier looks the
 // identifier up in resolver.ids, reports a clash whenever it is taken, and registers it.
@@ -39,6 +37,10 @@ func ruleREGISTER(c *Ctx) {
 		key := ssaFuncKey(f)
 		if why, ok := registerExceptions[key]; ok {
 			c.Ok(rule, key, cpos, "audited exception: %s", why)
+			continue
+		}
+		if key == "compiler.commandExtractor.extract" {
+			registerMidRule(c, f, key, cpos)
 			continue
 		}
 		var reg *ssa.MapUpdate
@@ -234,5 +236,106 @@ func ruleTAKENNAMES(c *Ctx) {
 		} else {
 			c.Bad(rule, key, f.Pos(), "takenName is not seeded with the names of m.%s: an extracted mid-rule nonterminal can receive the name (and identifier) of an existing symbol without any error", src)
 		}
+	}
+}
+
+// registerMidRule: extracted mid-rule nonterminals do not go through resolver.ids; the
+// extractor picks the first candidate name <nt>$<k> that is free. "Free" has to include the
+// identifier: the candidate's identifier (ident.Produce(name, CamelCase), e.g. X_1 for X$1) is
+// looked up in a set seeded with the identifiers of all existing symbols, the candidate is
+// accepted only on a miss, and the identifier is then recorded.
+func registerMidRule(c *Ctx, f *ssa.Function, key string, cpos token.Pos) {
+	const rule = "REGISTER"
+	isProduce := func(v ssa.Value) bool {
+		call, ok := v.(*ssa.Call)
+		if !ok {
+			return false
+		}
+		g := call.Call.StaticCallee()
+		return g != nil && g.Name() == "Produce"
+	}
+	var look *ssa.Lookup
+	var upd *ssa.MapUpdate
+	for _, b := range f.Blocks {
+		for _, ins := range b.Instrs {
+			switch x := ins.(type) {
+			case *ssa.Lookup:
+				if strings.HasSuffix(vpath(x.X), ".takenID") && isProduce(x.Index) {
+					look = x
+				}
+			case *ssa.MapUpdate:
+				if strings.HasSuffix(vpath(x.Map), ".takenID") && isProduce(x.Key) {
+					upd = x
+				}
+			}
+		}
+	}
+	// the symbol literal is created only after a miss
+	missGoverns := false
+	if look != nil {
+		for _, b := range f.Blocks {
+			for _, ins := range b.Instrs {
+				if st, ok := ins.(*ssa.Store); ok {
+					if fa, ok := st.Addr.(*ssa.FieldAddr); ok && strings.HasSuffix(strings.TrimPrefix(fa.X.Type().String(), "*"), "grammar.Symbol") && fieldName(fa.X.Type(), fa.Field) == "ID" {
+						// every path from the lookup's hit edge returns to the loop, never to the creation
+						for _, ref := range *look.Referrers() {
+							if ifi, ok := ref.(*ssa.If); ok {
+								_ = ifi
+							}
+						}
+						if look.Block().Dominates(b) {
+							missGoverns = true
+						}
+					}
+				}
+			}
+		}
+		// the lookup result must decide a branch whose "taken" edge goes back into the loop
+		decides := false
+		var uses func(v ssa.Value, d int)
+		uses = func(v ssa.Value, d int) {
+			if d > 3 || v.Referrers() == nil {
+				return
+			}
+			for _, r := range *v.Referrers() {
+				switch y := r.(type) {
+				case *ssa.If:
+					decides = true
+				case *ssa.UnOp:
+					uses(y, d+1)
+				case *ssa.Extract:
+					uses(y, d+1)
+				case *ssa.Phi:
+					uses(y, d+1)
+				case *ssa.BinOp:
+					uses(y, d+1)
+				}
+			}
+		}
+		uses(look, 0)
+		missGoverns = missGoverns && decides
+	}
+	// the set is seeded from the identifiers of the existing symbols
+	seeded := false
+	if nf := c.SSAFunc("compiler", "newCommandExtractor"); nf != nil {
+		for _, b := range nf.Blocks {
+			for _, ins := range b.Instrs {
+				if mu, ok := ins.(*ssa.MapUpdate); ok && strings.HasSuffix(normalizePhi(vpath(mu.Key)), ".ID") {
+					seeded = true
+				}
+			}
+		}
+	}
+	switch {
+	case look == nil:
+		c.Bad(rule, key, cpos, "an extracted mid-rule nonterminal is named <nt>$<k> with the first free *name*, but its identifier (ident.Produce(name), e.g. X_1) is never looked up: a token x_1 and the mid-rule nonterminal X$1 both get the identifier X_1 and no error is reported")
+	case !missGoverns:
+		c.Bad(rule, key, look.Pos(), "the identifier of a mid-rule nonterminal is looked up but the result does not decide whether the candidate is accepted")
+	case upd == nil:
+		c.Bad(rule, key, look.Pos(), "the identifier chosen for a mid-rule nonterminal is not recorded: the next one can get the same identifier")
+	case !seeded:
+		c.Bad(rule, key, look.Pos(), "the set of taken identifiers is not seeded with the identifiers of the existing symbols")
+	default:
+		c.Ok(rule, key, look.Pos(), "a candidate name is accepted only if its identifier is not taken (set seeded from all existing symbols), and the identifier is then recorded")
 	}
 }
